@@ -329,14 +329,26 @@ def table():
 
 
 def check_ustr(i):
+    """Row i of the table through ustr(), plain insertion and the quoting
+    forms (whose expected text is the escaped str() form)."""
+    import html
     from DocumentTemplate import HTML
     from DocumentTemplate.ustr import ustr
-    label, make, exp = table()[i]
+    label, make, exp0 = table()[i]
     out = []
-    for how in ('ustr', 'var'):
+    quoted = {'hq': '[<dtml-var "v" html_quote>]',
+              'hq-size': '[<dtml-var "v" html_quote size=999>]',
+              'fmt-hq': '[<dtml-var "v" fmt=html-quote>]',
+              'fmt-hq-size': '[<dtml-var "v" fmt=html-quote size=999>]'}
+    for how in ('ustr', 'var') + tuple(sorted(quoted)):
+        exp = exp0
+        if how in quoted and not isinstance(exp0, (type, tuple)):
+            exp = html.escape(exp0, quote=True)
         try:
             if how == 'ustr':
                 got = ustr(make())
+            elif how in quoted:
+                got = HTML(quoted[how])(v=make())[1:-1]
             else:
                 got = HTML('[<dtml-var "v">]')(v=make())[1:-1]
         except Exception as e:
@@ -373,6 +385,10 @@ def check_exc_bytes():
     return out
 
 
+SPECIAL_TEXTS = ['\ufeffx', '\ufeff', 'x\ufeff', '\ufeff<é', '\ufffea',
+                 '\x00a', 'a\x00', '\u2028a', '\xefa', 'ï»¿x', 'þÿx']
+
+
 def strategy():
     from hypothesis import strategies as st
     ch = st.one_of(
@@ -407,6 +423,8 @@ def plan(tier, seed):
     shards = [dict(kind='random', seed=seed * 1000 + i, n=n)
               for i in range(15)]
     shards.append(dict(kind='ustr'))
+    for i in range(4):
+        shards.append(dict(kind='special', part=i, parts=4))
     return shards
 
 
@@ -420,6 +438,21 @@ def run_shard(shard):
                 acc.fail(b, ['ustr', i, row[0]], msg)
         for b, msg in check_exc_bytes():
             acc.fail(b, ['ustr-exc-bytes'], msg)
+        return acc.result()
+    if shard['kind'] == 'special':
+        # texts that start or end with characters codecs treat specially
+        # (byte order marks, NUL, line separators), every form x encoding
+        cases = [dict(text=t, enc=e, form=f, neigh=n)
+                 for t in SPECIAL_TEXTS for e in ENCODINGS
+                 for f in sorted(FORMS) for n in (0, 1)]
+        for case in cases[shard['part']::shard['parts']]:
+            bad = check(case)
+            if bad == 'skip':
+                continue
+            acc.case(case, True, klass='special-text',
+                     distinct_by_construction=True)
+            if bad:
+                acc.fail(bad[0], case, bad[1])
         return acc.result()
     strat = strategy()
 
